@@ -587,6 +587,11 @@ ARG_EXC = {
     ('ObjectSurface.__init__', 'Surface.__init__', 'material_pre',
      'material_post'): 'the object space is one medium on both sides',
 }
+# visualization (thorough tier only): a dummy ray bundle used to evaluate the
+# sag at (x, y); z, direction and wavelength are placeholders of the same shape
+for _p in ('z', 'L', 'M', 'N', 'wavelength'):
+    ARG_EXC[('Surface2D._compute_sag', 'RealRays.__init__', _p, 'x')] = \
+        'placeholder of the shape of x in a sag-only ray bundle'
 
 
 def arg_names_rule(ctx):
